@@ -15,7 +15,13 @@ import tlc
 from props.c12 import decode_html
 from props.engine_common import plain
 
+XFORM_LINE = 'field.description = regex_replace(field.description, "^APLPAY\\\\s+", "")\n'
 RULES_TEXT = '''# budget rules
+[Wallet]
+match: startswith("APLPAY")
+category: Shopping
+subcategory: Grocery
+
 [Alfa]
 match: contains("ALFA")
 category: Food
@@ -46,9 +52,11 @@ ALFA[amount>1000],Alfa Big,Big,,
 PAYROLL,Payroll,Income,Salary,income
 '''
 VIEWS_TEXT = '[Food]\nfilter: category == "Food"\n\n[Costly]\nfilter: total > 1000\n'
-RULE_NAMES = {1: 'Alfa', 2: 'Alfa Big', 3: 'Refunds', 4: 'Payroll', 5: 'Matched'}
-TABLES = {'f1': [('d1', 'A', 'p1250'), ('bad30', 'A', 'p1250'), ('d2', 'Bp', 'm3'), ('d1', 'A', 'thou'), ('d2', 'pay', 'big')],
-          'f2': [('i1', 'A', 'p1250'), ('i2', 'Bp', 'paren3'), ('i1', 'uni', 'zero'), ('i2', 'A', 'thou')]}
+RULE_NAMES = {1: 'Alfa', 2: 'Alfa Big', 3: 'Refunds', 4: 'Payroll', 5: 'Matched', 6: 'Wallet'}
+TABLES = {'f1': [('d1', 'A', 'p1250'), ('bad30', 'A', 'p1250'), ('d2', 'Bp', 'm3'), ('d1', 'A', 'thou'), ('d2', 'pay', 'big'),
+                 ('d1', 'apA', 'p1250'), ('d2', 'apX', 'plus7')],
+          'f2': [('i1', 'A', 'p1250'), ('i2', 'Bp', 'paren3'), ('i1', 'uni', 'zero'), ('i2', 'A', 'thou'),
+                 ('i2', 'apA', 'thou'), ('i1', 'apX', 'cur5')]}
 DELIM = {'comma': ',', 'semicolon': ';', 'tab': 'tab'}
 
 
@@ -63,8 +71,12 @@ def materialise_budget(root, b, rnd):
     for s in b['sources']:
         fn = 'data/%s.csv' % s['name'].lower()
         delim = DELIM[s['delim']]
+        # "the amounts of this source are negated" has two spellings: {-amount} in the format string, or negate_amount: true
+        negkey = s['sign'] == 'negate' and b.get('_negkey')
         lines = ['  - name: %s' % s['name'], '    file: %s' % fn,
-                 '    format: "%s"' % RC.format_string(s['layout'], s['sign'])]
+                 '    format: "%s"' % RC.format_string(s['layout'], 'plain' if negkey else s['sign'])]
+        if negkey:
+            lines.append('    negate_amount: true')
         if s['dec'] == 'comma':
             lines.append('    decimal_separator: ","')
         if not s['header']:
@@ -81,7 +93,7 @@ def materialise_budget(root, b, rnd):
     settings = 'year: 2025\ndata_sources:\n' + '\n'.join(srcs) + '\n'
     if b['rules'] == 'rules':
         settings += 'merchants_file: config/merchants.rules\n'
-        files['config/merchants.rules'] = RULES_TEXT
+        files['config/merchants.rules'] = (XFORM_LINE + '\n' if b.get('xform') else '') + RULES_TEXT
     elif b['rules'] == 'csv':
         files['config/merchant_categories.csv'] = CSV_TEXT
     if b['mode'] == 'most_specific':
@@ -197,7 +209,7 @@ def walk_worker(item):
         if prev is not None:
             pb, pobs = prev
             # metamorphic on the real outputs: a step that changed one source left the others' transactions alone
-            if len(pb['sources']) == len(b['sources']) and pb['rules'] == b['rules'] and pb['mode'] == b['mode'] and pb['supp'] == b['supp']:
+            if len(pb['sources']) == len(b['sources']) and pb['rules'] == b['rules'] and pb['mode'] == b['mode'] and pb['supp'] == b['supp'] and pb.get('xform') == b.get('xform'):
                 changed = [i for i in range(len(b['sources'])) if pb['sources'][i] != b['sources'][i]]
                 if len(changed) == 1:
                     for s in b['sources']:
@@ -210,8 +222,20 @@ def walk_worker(item):
     return name, out
 
 
+def pair_worker(item):
+    b, rep, seed = item
+    out = []
+    variants = [b]
+    if any(s['sign'] == 'negate' for s in b['sources']):
+        variants.append(dict(b, _negkey=True))
+    for k, bb in enumerate(variants):
+        diffs, _, raw = run_budget(bb, rep, seed + k, want_json=False)
+        out.append((bb, diffs, raw))
+    return out
+
+
 def signature(b, clause):
-    return {'site': 'tally up', 'clause': clause, 'rules': b['rules'], 'mode': b['mode'], 'supp': b['supp']}
+    return {'site': 'tally up', 'clause': clause, 'rules': b['rules'], 'mode': b['mode'], 'supp': b['supp'], 'xform': b.get('xform', False)}
 
 
 def run(ck):
@@ -219,6 +243,8 @@ def run(ck):
     ck.assumptions += ['fixed rule set (categorising, more-specific categorising, tag-only, income, supplemental-referencing) and two small '
                        'statement tables per date format; budgets differ in settings only',
                        'rule_mode applies to .rules files; legacy CSV rule files are always first-match',
+                       'every merchant of the universe carries one (category, subcategory): the report groups transactions by merchant '
+                       'and shows the merchant\'s classification, not a per-transaction one',
                        'per-transaction comparison through the data embedded in the HTML report (decoded by html.parser + json)']
     ck.expect_model_violation('MC_Pipeline/neg', tlc.run('MC_Pipeline', 'MC_Pipeline_neg.cfg'), 'Neg_ModeNeverMatters')
     ck.expect_model_ok('MC_Pipeline', tlc.run('MC_Pipeline', 'MC_Pipeline.cfg'))
@@ -231,8 +257,22 @@ def run(ck):
         walks = [(os.path.basename(f), states, ck.seed * 100 + i) for i, (f, (labels, states)) in enumerate(simtrace.behaviours(tmp))]
     finally:
         shutil.rmtree(tmp, ignore_errors=True)
+    # every budget of two sources with textually identical format strings, one or two settings away from each other
+    tmp = tempfile.mkdtemp(prefix='c11pairs_')
+    try:
+        import tlaval
+        dump = os.path.join(tmp, 'pairs.dump')
+        ck.expect_model_ok('MC_Pipeline/pairs', tlc.run('MC_Pipeline', 'MC_Pipeline_pairs.cfg', dump=dump))
+        pairs = [(plain(st['b']), plain(st['rep']), ck.seed * 7 + i) for i, st in enumerate(tlaval.parse_dump(dump))]
+    finally:
+        shutil.rmtree(tmp, ignore_errors=True)
+    if quick:
+        pairs = [p for p in pairs if len(p[0]['sources']) == 2 and p[0]['sources'][0]['layout'] == p[0]['sources'][1]['layout']
+                 and p[0]['rules'] == 'rules' and not p[0]['views']]
+    ck.extra['pair_budgets'] = len(pairs)
+    pair_out = [('pair', out) for out in par.pmap(pair_worker, pairs)]
     seen_settings = set()
-    for name, out in par.pmap(walk_worker, walks):
+    for name, out in list(par.pmap(walk_worker, walks)) + pair_out:
         for b, diffs, raw in out:
             ck.case(n=1)
             ck.trace(1)
@@ -241,13 +281,13 @@ def run(ck):
                 seen_settings.add((s['layout'], s['sign'], s['dec'], s['header'], s['delim'], s['status']))
             for clause, detail in diffs:
                 ck.violation(signature(b, clause), {'budget': b, 'settings_yaml': raw.get('settings'), 'detail': detail, 'raw': {k: v for k, v in raw.items() if k != 'settings'}},
-                             '`tally up` on budget %s: %s' % (json.dumps({k: b[k] for k in ('rules', 'mode', 'supp', 'views')}), detail))
+                             '`tally up` on budget %s: %s' % (json.dumps({k: b[k] for k in ('rules', 'mode', 'supp', 'views', 'xform')}), detail))
     ck.extra['distinct_source_settings_exercised'] = len(seen_settings)
     ck.sample({'budget': walks[0][1] and plain(walks[0][1][-1]['b'])})
     ck.extra['rule'] = ('TLC -simulate walks over MC_Pipeline (each step changes one setting of one source - layout, sign mode, decimal separator, '
-                        'header, delimiter, present/missing - or the rules kind, rule mode, supplemental source, views, or adds a source); every '
+                        'header, delimiter, present/missing - or the rules kind, rule mode, supplemental source, views, description transform, or adds a source); every '
                         'budget on the walk is materialised and run through the real `tally up`; the decoded report is compared per transaction '
-                        'and per flow with Pipeline!Report and consecutive budgets are compared with each other. non-trivial = two sources or rules')
+                        'and per flow with Pipeline!Report and consecutive budgets are compared with each other; plus (exhaustively, from the TLC state dump) every budget of two sources with the same format string that is one or two setting changes away from the identical pair, negation in both spellings. non-trivial = two sources or rules')
     ck.exhaustive = False
 
 
